@@ -1,3 +1,33 @@
+/-
+  PolarProofs/SimModel.lean — C12: theorems about the simulator model (`Polar/SimModel.lean`).
+
+  Property theorems (audited with `#print axioms`, each followed further down by a non-vacuity `example`):
+
+  * `sim_eq_sem` / `sim_eq_sem_empty` / `sim_eq_sem_default` — for EVERY program `P` (assignments with
+    expression / probabilistic choice / Bernoulli / Categorical / DiscreteUniform right sides, guarded
+    assignments with default variable, if-else nesting = if/elif/else chains, simultaneous assignments through
+    the parser's temporaries, loop guard with stuttering), every `n` and related initial states: if
+    `Polar.run P false n s₀` (reference semantics, unmerged) and `simPaths true tmp P n σ₀` (strict path
+    enumeration of the simulator model) both return, the two lists agree position by position — same weight, no
+    draw atoms, same value of every variable that is not a temporary (`List.Forall₂ (PR T)`).  Hypotheses: the
+    temporaries are pairwise distinct names inside a set `T` no program variable belongs to (`TmpOK`, `progAvoids`;
+    discharged for the executable's `_t0, _t1, …` and programs without underscore-initial names in
+    `sim_eq_sem_default`).  "Both return" is needed because the two sides refuse different inputs: the simulator
+    short-circuits `&&`/`||` and rejects `/=`, the reference semantics rejects conditions on draws; `strict`
+    refuses `random.choices` weights that do not sum to one (the stdlib renormalises, the analysis does not) and
+    continuous draws.  Proved by mutual induction over statements / blocks, then over `n`.
+  * `simPaths_sound` — every path of `simPaths` replays through the tape-driven interpreter `simRun` (the literal
+    model of `Simulator.simulate`) to the listed state, consuming exactly the listed tape.
+  * `simPaths_strict` — when the strict enumeration succeeds, the executable's enumeration returns the same list.
+  * `sampler_params_agree` — for every family except TruncNormal the scipy call coded in `sample` is the documented
+    parameterisation; `sampler_support_agree` — and its support is the declared `get_support`.
+  * `sampler_params_truncnormal_counterexample`, `truncnormal_spec_support`, `truncnormal_code_support`,
+    `truncnormal_support_agree_iff` — `TruncNormal.sample` passes raw bounds: the coded call has support
+    `[μ+σa, μ+σb]`, the documented one `[a, b]`; they coincide iff μ = 0 and σ = 1.
+
+  NOT covered: IEEE rounding (values are `Rat`), scipy / random internals (the law of a source is taken from its
+  documentation), continuous draws inside `sim_eq_sem` (their samplers are covered by the sampler theorems only).
+-/
 import Mathlib.Tactic
 import Std.Data.String.ToNat
 import Polar.SimModel
@@ -1359,5 +1389,406 @@ example : ∃ D D', Polar.run exP false 2 [] = .ok D ∧ simPaths true defaultTm
   rw [hD'] at h3
   exact h3
 
+
+
+/-! ### the enumeration is consistent with the tape-driven interpreter -/
+
+/-- every enumerated path, replayed through the tape-driven interpreter, reaches the listed state and
+    consumes exactly its own tape -/
+def Sound (f' : Sim.State → Sim.M (List PathS)) (f : Sim.State → Tape → Sim.M (Sim.State × Tape)) : Prop :=
+  ∀ σ D, f' σ = .ok D → ∀ p ∈ D, ∀ rest, f σ (p.2.1 ++ rest) = .ok (p.2.2, rest)
+
+theorem mem_choicesOpts {total : Rat} {i : Nat} {vs ws : List Rat} {p : Rat × Entry × Rat}
+    (h : p ∈ choicesOpts total i vs ws) : ∃ k, p.2.1 = .idx (i + k) ∧ vs[k]? = some p.2.2 := by
+  induction vs generalizing i ws with
+  | nil => simp [choicesOpts] at h
+  | cons v vs ih =>
+    cases ws with
+    | nil => simp [choicesOpts] at h
+    | cons w ws =>
+      simp only [choicesOpts, List.mem_cons] at h
+      rcases h with rfl | h
+      · exact ⟨0, by simp, by simp⟩
+      · obtain ⟨k, h1, h2⟩ := ih h
+        exact ⟨k + 1, by rw [h1]; congr 1; omega, by simpa using h2⟩
+
+theorem mem_choiceOpts {cnt i : Nat} {vs : List Rat} {p : Rat × Entry × Rat}
+    (h : p ∈ choiceOpts cnt i vs) : ∃ k, p.2.1 = .idx (i + k) ∧ vs[k]? = some p.2.2 := by
+  induction vs generalizing i with
+  | nil => simp [choiceOpts] at h
+  | cons v vs ih =>
+    simp only [choiceOpts, List.mem_cons] at h
+    rcases h with rfl | h
+    · exact ⟨0, by simp, by simp⟩
+    · obtain ⟨k, h1, h2⟩ := ih h
+      exact ⟨k + 1, by rw [h1]; congr 1; omega, by simpa using h2⟩
+
+theorem options_answer {b : Bool} {r : Req} {opts : List (Rat × Entry × Rat)} (h : r.options b = .ok opts)
+    {p : Rat × Entry × Rat} (hp : p ∈ opts) : r.answer p.2.1 = .ok p.2.2 := by
+  cases r with
+  | choices vs ws =>
+    simp only [Req.options] at h
+    obtain ⟨u, hg, h⟩ := bind_ok.mp h
+    split at h
+    · simp [throw_ne_ok, bind, Except.bind, throw, throwThe, MonadExceptOf.throw] at h
+    · simp only [pure, Except.pure, Except.ok.injEq] at h
+      subst h
+      obtain ⟨k, h1, h2⟩ := mem_choicesOpts hp
+      simp only [Nat.zero_add] at h1
+      simp [Req.answer, h1, hg, h2, bind, Except.bind, pure, Except.pure]
+  | choice vs =>
+    simp only [Req.options] at h
+    split at h
+    · exact absurd h throw_ne_ok
+    · simp only [pure, Except.pure, Except.ok.injEq] at h
+      subst h
+      obtain ⟨k, h1, h2⟩ := mem_choiceOpts hp
+      simp only [Nat.zero_add] at h1
+      simp [Req.answer, h1, h2, pure, Except.pure]
+  | rvs c =>
+    simp only [Req.options] at h
+    split at h
+    · simp only [pure, Except.pure, Except.ok.injEq] at h
+      subst h
+      simp only [List.mem_cons, List.not_mem_nil, or_false] at hp
+      rcases hp with rfl | rfl <;> simp [Req.answer, pure, Except.pure]
+    · exact absurd h throw_ne_ok
+
+theorem mem_assignOpts {σ : Sim.State} {x : String} {opts : List (Rat × Entry × Rat)} {p : PathS}
+    (h : p ∈ assignOpts σ x opts) : ∃ o ∈ opts, p = (o.1, [o.2.1], σ.set x o.2.2) := by
+  induction opts with
+  | nil => simp [assignOpts] at h
+  | cons o t ih =>
+    obtain ⟨w, e, v⟩ := o
+    simp only [assignOpts, List.mem_cons] at h
+    rcases h with rfl | h
+    · exact ⟨(w, e, v), by simp, rfl⟩
+    · obtain ⟨o, ho, rfl⟩ := ih h
+      exact ⟨o, by simp [ho], rfl⟩
+
+theorem pathsAssign_sound (b : Bool) (x : String) (rhs : Rhs) (g : Cond) (d : String) :
+    Sound (pathsAssign b x rhs g d) (simAssign x rhs g d) := by
+  intro σ D h p hp rest
+  simp only [pathsAssign] at h
+  obtain ⟨c, hc, h⟩ := bind_ok.mp h
+  cases c with
+  | true =>
+    simp only [if_true] at h
+    obtain ⟨r, hr, h⟩ := bind_ok.mp h
+    obtain ⟨opts, ho, h⟩ := bind_ok.mp h
+    simp only [pure, Except.pure, Except.ok.injEq] at h
+    subst h
+    obtain ⟨o, hmem, rfl⟩ := mem_assignOpts hp
+    have ha := options_answer ho hmem
+    simp [simAssign, hc, hr, ha, bind, Except.bind, pure, Except.pure]
+  | false =>
+    simp only [Bool.false_eq_true, if_false] at h
+    cases hd : Sim.State.get? σ d with
+    | none => simp [hd, throw_ne_ok] at h
+    | some v =>
+      simp only [hd, pure, Except.pure, Except.ok.injEq] at h
+      subst h
+      simp only [List.mem_cons, List.not_mem_nil, or_false] at hp
+      subst hp
+      simp [simAssign, hc, hd, bind, Except.bind, pure, Except.pure]
+
+theorem mem_extend {w : Rat} {t : Tape} {a : List PathS} {p : PathS} (h : p ∈ extend w t a) :
+    ∃ r ∈ a, p = (w * r.1, t ++ r.2.1, r.2.2) := by
+  induction a with
+  | nil => simp [extend] at h
+  | cons r a ih =>
+    obtain ⟨w', t', σ'⟩ := r
+    simp only [extend, List.mem_cons] at h
+    rcases h with rfl | h
+    · exact ⟨(w', t', σ'), by simp, rfl⟩
+    · obtain ⟨r, hr, rfl⟩ := ih h
+      exact ⟨r, by simp [hr], rfl⟩
+
+theorem bindPaths_mem {d : List PathS} {f : Sim.State → Sim.M (List PathS)} {D : List PathS}
+    (h : bindPaths d f = .ok D) {p : PathS} (hp : p ∈ D) :
+    ∃ q ∈ d, ∃ D1, f q.2.2 = .ok D1 ∧ ∃ r ∈ D1, p = (q.1 * r.1, q.2.1 ++ r.2.1, r.2.2) := by
+  induction d generalizing D with
+  | nil =>
+    simp only [bindPaths, pure, Except.pure, Except.ok.injEq] at h
+    subst h
+    simp at hp
+  | cons q d ih =>
+    obtain ⟨w, t, σ⟩ := q
+    simp only [bindPaths] at h
+    obtain ⟨a, ha, h⟩ := bind_ok.mp h
+    obtain ⟨b, hb, h⟩ := bind_ok.mp h
+    simp only [pure, Except.pure, Except.ok.injEq] at h
+    subst h
+    rcases List.mem_append.mp hp with h1 | h1
+    · obtain ⟨r, hr, rfl⟩ := mem_extend h1
+      exact ⟨(w, t, σ), by simp, a, ha, r, hr, rfl⟩
+    · obtain ⟨q, hq, rest⟩ := ih hb h1
+      exact ⟨q, by simp [hq], rest⟩
+
+theorem sound_seq {f1' f2' g' : Sim.State → Sim.M (List PathS)}
+    {f1 f2 g : Sim.State → Tape → Sim.M (Sim.State × Tape)}
+    (h1 : Sound f1' f1) (h2 : Sound f2' f2)
+    (hg' : ∀ σ, g' σ = (f1' σ >>= fun d => bindPaths d f2'))
+    (hg : ∀ σ t, g σ t = (f1 σ t >>= fun p => f2 p.1 p.2)) : Sound g' g := by
+  intro σ D h p hp rest
+  rw [hg'] at h
+  obtain ⟨d, hd, h⟩ := bind_ok.mp h
+  obtain ⟨q, hq, D1, hD1, r, hr, rfl⟩ := bindPaths_mem h hp
+  have e1 := h1 σ d hd q hq (r.2.1 ++ rest)
+  have e2 := h2 q.2.2 D1 hD1 r hr rest
+  rw [hg]
+  simp only [List.append_assoc, e1, bind, Except.bind]
+  exact e2
+
+theorem sound_pure : Sound (fun σ => pure [(1, [], σ)]) (fun σ t => pure (σ, t)) := by
+  intro σ D h p hp rest
+  simp only [pure, Except.pure, Except.ok.injEq] at h
+  subst h
+  simp only [List.mem_cons, List.not_mem_nil, or_false] at hp
+  subst hp
+  rfl
+
+theorem pathsAssigns_sound (b : Bool) (l : List (String × Rhs)) :
+    Sound (pathsAssigns b l) (simAssigns l) := by
+  induction l with
+  | nil =>
+    intro σ D h p hp rest
+    exact sound_pure σ D (by simpa [pathsAssigns] using h) p hp rest
+  | cons a l ih =>
+    obtain ⟨x, r⟩ := a
+    exact sound_seq (pathsAssign_sound b x r .tt x) ih (fun σ => by simp only [pathsAssigns])
+      (fun σ t => by simp only [simAssigns])
+
+mutual
+theorem pathsStmt_sound (b : Bool) (tmp : Nat → String) (st : Stmt) :
+    Sound (pathsStmt b tmp st) (simStmt tmp st) := by
+  cases st with
+  | assign x rhs g d =>
+    intro σ D h p hp rest
+    simp only [pathsStmt] at h
+    simp only [simStmt]
+    exact pathsAssign_sound b x rhs g d σ D h p hp rest
+  | simult xs rhss =>
+    by_cases hl : xs.length = rhss.length
+    · exact sound_seq (pathsAssigns_sound b (simultTemps tmp xs rhss)) (pathsAssigns_sound b (simultCopies tmp xs))
+        (fun σ => by simp only [pathsStmt, hl, ne_eq, not_true_eq_false, if_false])
+        (fun σ t => by simp only [simStmt, hl, ne_eq, not_true_eq_false, if_false])
+    · intro σ D h p hp rest
+      simp [pathsStmt, hl, throw_ne_ok] at h
+  | ite c t e =>
+    intro σ D h p hp rest
+    simp only [pathsStmt] at h
+    obtain ⟨v, hv, h⟩ := bind_ok.mp h
+    simp only [simStmt, hv, bind, Except.bind]
+    cases v with
+    | true => exact pathsBlock_sound b tmp t σ D (by simpa using h) p hp rest
+    | false => exact pathsBlock_sound b tmp e σ D (by simpa using h) p hp rest
+
+theorem pathsBlock_sound (b : Bool) (tmp : Nat → String) (bl : List Stmt) :
+    Sound (pathsBlock b tmp bl) (simBlock tmp bl) := by
+  cases bl with
+  | nil =>
+    intro σ D h p hp rest
+    simp only [pathsBlock] at h
+    simp only [simBlock]
+    exact sound_pure σ D h p hp rest
+  | cons s rest =>
+    exact sound_seq (pathsStmt_sound b tmp s) (pathsBlock_sound b tmp rest)
+      (fun σ => by simp only [pathsBlock]) (fun σ t => by simp only [simBlock])
+end
+
+
+theorem pathsIter_sound (b : Bool) (tmp : Nat → String) (P : Program) :
+    Sound (pathsIter b tmp P) (simIter tmp P) := by
+  intro σ D h p hp rest
+  simp only [pathsIter] at h
+  obtain ⟨v, hv, h⟩ := bind_ok.mp h
+  simp only [simIter, hv, bind, Except.bind]
+  cases v with
+  | true => exact pathsBlock_sound b tmp P.body σ D (by simpa using h) p hp rest
+  | false => exact sound_pure σ D (by simpa using h) p hp rest
+
+theorem pathsIterN_sound (b : Bool) (tmp : Nat → String) (P : Program) (n : Nat) {d D : List PathS}
+    (h : pathsIterN b tmp P n d = .ok D) {p : PathS} (hp : p ∈ D) :
+    ∃ q ∈ d, ∃ t2, p.2.1 = q.2.1 ++ t2 ∧ ∀ rest, simIterN tmp P n q.2.2 (t2 ++ rest) = .ok (p.2.2, rest) := by
+  induction n generalizing d with
+  | zero =>
+    simp only [pathsIterN, pure, Except.pure, Except.ok.injEq] at h
+    subst h
+    exact ⟨p, hp, [], by simp, fun rest => rfl⟩
+  | succ n ih =>
+    simp only [pathsIterN] at h
+    obtain ⟨d', hd', h⟩ := bind_ok.mp h
+    obtain ⟨q', hq', t2', e1, e2⟩ := ih h
+    obtain ⟨q, hq, D1, hD1, r, hr, rfl⟩ := bindPaths_mem hd' hq'
+    refine ⟨q, hq, r.2.1 ++ t2', by simp [e1], fun rest => ?_⟩
+    have e3 := pathsIter_sound b tmp P q.2.2 D1 hD1 r hr (t2' ++ rest)
+    simp only [simIterN, List.append_assoc, e3, bind, Except.bind]
+    exact e2 rest
+
+/-- **Replay.**  Every path listed by `simPaths` is a run of the tape-driven interpreter `simRun` (the
+    literal model of `Simulator.simulate`): feeding the listed tape yields the listed final state and leaves
+    no entry unread. -/
+theorem simPaths_sound (b : Bool) (tmp : Nat → String) (P : Program) (n : Nat) (σ₀ : Sim.State)
+    {D : List PathS} (h : simPaths b tmp P n σ₀ = .ok D) {p : PathS} (hp : p ∈ D) :
+    simRun tmp P n σ₀ p.2.1 = .ok (p.2.2, []) := by
+  simp only [simPaths] at h
+  obtain ⟨d₀, h0, h⟩ := bind_ok.mp h
+  obtain ⟨q, hq, t2, e1, e2⟩ := pathsIterN_sound b tmp P n h hp
+  have e3 := pathsBlock_sound b tmp P.init σ₀ d₀ h0 q hq t2
+  have e4 := e2 []
+  simp only [List.append_nil] at e4
+  simp only [simRun, e1, e3, bind, Except.bind]
+  exact e4
+
+/-! ### strict enumeration = enumeration, whenever the strict one succeeds -/
+
+theorem options_strict {r : Req} {opts} (h : r.options true = .ok opts) : r.options false = .ok opts := by
+  cases r with
+  | choices vs ws =>
+    simp only [Req.options] at h ⊢
+    obtain ⟨u, hg, h⟩ := bind_ok.mp h
+    split at h
+    · simp [throw_ne_ok, bind, Except.bind, throw, throwThe, MonadExceptOf.throw] at h
+    · simp only [hg, bind, Except.bind]
+      simpa using h
+  | choice vs => simpa [Req.options] using h
+  | rvs c => simpa [Req.options] using h
+
+def StrictLe (f g : Sim.State → Sim.M (List PathS)) : Prop := ∀ σ D, f σ = .ok D → g σ = .ok D
+
+theorem bindPaths_strict {f g : Sim.State → Sim.M (List PathS)} (hfg : StrictLe f g) (d : List PathS) {D}
+    (h : bindPaths d f = .ok D) : bindPaths d g = .ok D := by
+  induction d generalizing D with
+  | nil => simpa [bindPaths] using h
+  | cons q d ih =>
+    obtain ⟨w, t, σ⟩ := q
+    simp only [bindPaths] at h ⊢
+    obtain ⟨a, ha, h⟩ := bind_ok.mp h
+    obtain ⟨b, hb, h⟩ := bind_ok.mp h
+    simp only [hfg σ a ha, ih hb, bind, Except.bind]
+    exact h
+
+theorem strict_seq {f1 f2 g1 g2 : Sim.State → Sim.M (List PathS)} (h1 : StrictLe f1 g1) (h2 : StrictLe f2 g2) :
+    StrictLe (fun σ => f1 σ >>= fun d => bindPaths d f2) (fun σ => g1 σ >>= fun d => bindPaths d g2) := by
+  intro σ D h
+  obtain ⟨d, hd, h⟩ := bind_ok.mp h
+  simp only [h1 σ d hd, bind, Except.bind]
+  exact bindPaths_strict h2 d h
+
+theorem pathsAssign_strict (x : String) (rhs : Rhs) (g : Cond) (d : String) :
+    StrictLe (pathsAssign true x rhs g d) (pathsAssign false x rhs g d) := by
+  intro σ D h
+  simp only [pathsAssign] at h ⊢
+  obtain ⟨c, hc, h⟩ := bind_ok.mp h
+  simp only [hc, bind, Except.bind]
+  cases c with
+  | true =>
+    simp only [if_true] at h ⊢
+    obtain ⟨r, hr, h⟩ := bind_ok.mp h
+    obtain ⟨opts, ho, h⟩ := bind_ok.mp h
+    simp only [hr, options_strict ho, bind, Except.bind]
+    exact h
+  | false => simpa using h
+
+theorem pathsAssigns_strict (l : List (String × Rhs)) : StrictLe (pathsAssigns true l) (pathsAssigns false l) := by
+  induction l with
+  | nil => intro σ D h; simpa [pathsAssigns] using h
+  | cons a l ih =>
+    obtain ⟨x, r⟩ := a
+    intro σ D h
+    simp only [pathsAssigns] at h ⊢
+    exact strict_seq (pathsAssign_strict x r .tt x) ih σ D h
+
+mutual
+theorem pathsStmt_strict (tmp : Nat → String) (st : Stmt) :
+    StrictLe (pathsStmt true tmp st) (pathsStmt false tmp st) := by
+  cases st with
+  | assign x rhs g d =>
+    intro σ D h
+    simp only [pathsStmt] at h ⊢
+    exact pathsAssign_strict x rhs g d σ D h
+  | simult xs rhss =>
+    intro σ D h
+    simp only [pathsStmt] at h ⊢
+    split at h
+    · exact absurd h throw_ne_ok
+    · rename_i hl
+      simp only [hl, if_false]
+      exact strict_seq (pathsAssigns_strict _) (pathsAssigns_strict _) σ D h
+  | ite c t e =>
+    intro σ D h
+    simp only [pathsStmt] at h ⊢
+    obtain ⟨v, hv, h⟩ := bind_ok.mp h
+    simp only [hv, bind, Except.bind]
+    cases v with
+    | true => exact pathsBlock_strict tmp t σ D (by simpa using h)
+    | false => exact pathsBlock_strict tmp e σ D (by simpa using h)
+
+theorem pathsBlock_strict (tmp : Nat → String) (bl : List Stmt) :
+    StrictLe (pathsBlock true tmp bl) (pathsBlock false tmp bl) := by
+  cases bl with
+  | nil => intro σ D h; simpa [pathsBlock] using h
+  | cons s rest =>
+    intro σ D h
+    simp only [pathsBlock] at h ⊢
+    exact strict_seq (pathsStmt_strict tmp s) (pathsBlock_strict tmp rest) σ D h
+end
+
+theorem pathsIter_strict (tmp : Nat → String) (P : Program) :
+    StrictLe (pathsIter true tmp P) (pathsIter false tmp P) := by
+  intro σ D h
+  simp only [pathsIter] at h ⊢
+  obtain ⟨v, hv, h⟩ := bind_ok.mp h
+  simp only [hv, bind, Except.bind]
+  cases v with
+  | true => exact pathsBlock_strict tmp P.body σ D (by simpa using h)
+  | false => simpa using h
+
+theorem pathsIterN_strict (tmp : Nat → String) (P : Program) (n : Nat) {d D : List PathS}
+    (h : pathsIterN true tmp P n d = .ok D) : pathsIterN false tmp P n d = .ok D := by
+  induction n generalizing d with
+  | zero => simpa [pathsIterN] using h
+  | succ n ih =>
+    simp only [pathsIterN] at h ⊢
+    obtain ⟨d', hd', h⟩ := bind_ok.mp h
+    simp only [bindPaths_strict (pathsIter_strict tmp P) d hd', bind, Except.bind]
+    exact ih h
+
+/-- whenever the strict enumeration (the one `sim_eq_sem` speaks about) succeeds, the enumeration used by
+    the executable returns the same list -/
+theorem simPaths_strict (tmp : Nat → String) (P : Program) (n : Nat) (σ₀ : Sim.State) {D : List PathS}
+    (h : simPaths true tmp P n σ₀ = .ok D) : simPaths false tmp P n σ₀ = .ok D := by
+  simp only [simPaths] at h ⊢
+  obtain ⟨d₀, h0, h⟩ := bind_ok.mp h
+  simp only [pathsBlock_strict tmp P.init σ₀ d₀ h0, bind, Except.bind]
+  exact pathsIterN_strict tmp P n h
+
+
+/-- non-vacuity of `simPaths_sound` / `simPaths_strict`: the example program has paths, and the first one
+    replays through `simRun` -/
+example : ∃ D p, simPaths true defaultTmp exP 2 [] = .ok D ∧ simPaths false defaultTmp exP 2 [] = .ok D ∧ p ∈ D ∧
+    simRun defaultTmp exP 2 [] p.2.1 = .ok (p.2.2, []) := by
+  have h2 : isOk (simPaths true defaultTmp exP 2 []) = true := by decide +kernel
+  obtain ⟨D, hD⟩ := isOk_iff.mp h2
+  have h3 : (match simPaths true defaultTmp exP 2 [] with | .ok d => d.length | .error _ => 0) = 7 := by
+    decide +kernel
+  rw [hD] at h3
+  simp only at h3
+  obtain ⟨p, hp⟩ := List.exists_mem_of_length_pos (l := D) (by omega)
+  exact ⟨D, p, hD, simPaths_strict _ _ _ _ hD, hp, simPaths_sound _ _ _ _ _ hD hp⟩
+
+/-- non-vacuity of the TruncNormal characterisation and of `sampler_support_agree` -/
+example : (0 : Rat) < 2 ∧ (-1 : Rat) < 1 ∧
+    (samplerCall "TruncNormal" [0, 2 * 2, -1, 1]).bind ScipyCall.support ≠ declaredSupport "TruncNormal" [0, 2 * 2, -1, 1] := by
+  refine ⟨by norm_num, by norm_num, ?_⟩
+  rw [Ne, truncnormal_support_agree_iff 0 2 (-1) 1 (by norm_num) (by norm_num)]
+  norm_num
+
+example : ∃ c sup, samplerCall "Uniform" [-1, 3] = some c ∧ c.support = some sup ∧
+    declaredSupport "Uniform" [-1, 3] = some sup := by
+  refine ⟨_, (some (-1), some 3), rfl, ?_, ?_⟩
+  · decide +kernel
+  · decide +kernel
 
 end SimProofs
